@@ -877,6 +877,17 @@ func (c *Conn) verifyServerCertificate(certificates [][]byte) error {
 			_ = c.sendAlert(alertBadCertificate)
 			return &CertificateVerificationError{UnverifiedCertificates: certs, Err: err}
 		}
+
+		// 双证书的位置不可互换：第一张必须可用于签名，第二张必须可用于加密或密钥协商
+		// （仅当证书带有密钥用法扩展时检查）。
+		if ku := certs[0].KeyUsage; ku != 0 && ku&x509.KeyUsageDigitalSignature == 0 {
+			_ = c.sendAlert(alertBadCertificate)
+			return errors.New("dtlcp: server's first certificate is not a signing certificate")
+		}
+		if ku := certs[1].KeyUsage; ku != 0 && ku&(x509.KeyUsageKeyEncipherment|x509.KeyUsageDataEncipherment|x509.KeyUsageKeyAgreement) == 0 {
+			_ = c.sendAlert(alertBadCertificate)
+			return errors.New("dtlcp: server's second certificate is not an encryption certificate")
+		}
 	}
 
 	switch certs[0].PublicKey.(type) {
